@@ -214,14 +214,15 @@ theorem dfltOkFrom_map (schemas : List Schema) (g : Field → Field)
     obtain ⟨h1, h2, h3⟩ := hg f
     simp only [List.map_cons, dfltOkFrom, h1, h2, fieldDfltOk, h3, ih]
 
-/-- a struct of the registry is covered at level `n` when every shape is read cleanly at level `n` -/
-theorem schemaOk_of (cfg : Cfg) (schemas : List Schema) (hand) (n : Nat) (env : Env)
-    (hall : ∀ s p, p.plain = true → Clean ((semH cfg schemas hand n).rd env s p))
-    (S : Schema) (hd : dfltOkFrom schemas S.fields 0 = true) : SchemaOk (semH cfg schemas hand n) env S := by
+/-- a struct of the registry is covered by readers `inner` that read every shape cleanly and evaluate defaults the
+    registry's way -/
+theorem schemaOk_of_inner (schemas : List Schema) (inner : Sem) (hdf : inner.dflt = dfltH schemas) (env : Env)
+    (hall : ∀ s p, p.plain = true → Clean (inner.rd env s p))
+    (S : Schema) (hd : dfltOkFrom schemas S.fields 0 = true) : SchemaOk inner env S := by
   intro pre post f hf hs ho acc hl
   refine ⟨?_, fun dx hdx => ?_⟩
   · -- every non-container shape below the containers of the field is read cleanly
-    have : ∀ s, ShapeAll (RdClean (semH cfg schemas hand n) env) s := by
+    have : ∀ s, ShapeAll (RdClean inner env) s := by
       intro s
       induction s with
       | pair a b iha ihb => exact ⟨iha, ihb⟩
@@ -239,9 +240,15 @@ theorem schemaOk_of (cfg : Cfg) (schemas : List Schema) (hand) (n : Nat) (env : 
       | modelApp n a _ => exact fun p hp => hall _ p hp
       | param n => exact fun p hp => hall _ p hp
     exact this f.shape
-  · rw [semH_dflt]
+  · rw [hdf]
     have := dfltOkFrom_at schemas S.fields 0 hd pre post f hf hs ho
     exact dfltH_clean schemas f _ this dx hdx acc (by simpa using hl)
+
+/-- a struct of the registry is covered at level `n` when every shape is read cleanly at level `n` -/
+theorem schemaOk_of (cfg : Cfg) (schemas : List Schema) (hand) (n : Nat) (env : Env)
+    (hall : ∀ s p, p.plain = true → Clean ((semH cfg schemas hand n).rd env s p))
+    (S : Schema) (hd : dfltOkFrom schemas S.fields 0 = true) : SchemaOk (semH cfg schemas hand n) env S :=
+  schemaOk_of_inner schemas _ (semH_dflt cfg schemas hand n) env hall S hd
 
 /-- what the registry has to satisfy (decidable; evaluated on the generated data by the model driver, see
     `Props/C01.typed_registry_total`): every default evaluates, and the two models the hand-written `PagesNode` reader
@@ -331,6 +338,70 @@ theorem readPagesRc_clean (cfg : Cfg) (schemas : List Schema) (hreg : RegistryOk
     · exact clean_err _ rfl
   · exact clean_err _ rfl
 
+/-- one level of derived models on top of readers `inner` that are clean on every shape: clean on every shape that is
+    not hand-written -/
+theorem structSem_clean (cfg : Cfg) (schemas : List Schema) (hreg : RegistryOk schemas) (inner : Sem)
+    (hdf : inner.dflt = dfltH schemas) {env : Env} (he : EnvOk env)
+    (hall : ∀ s p, p.plain = true → Clean (inner.rd env s p))
+    (s : Shape) (hnh : ¬ isHand schemas s = true) (p : Prim) (hp : p.plain = true) :
+    Clean ((structSem cfg schemas inner).rd env s p) := by
+  have hS : ∀ S ∈ schemas, SchemaOk inner env S :=
+    fun S hmem => schemaOk_of_inner schemas inner hdf env hall S (hreg.dflt S hmem)
+  cases s with
+  | model nm =>
+    show Clean (match findSchema nm schemas with
+      | some S => match S.kind with
+        | .struct => readStruct cfg inner env S p
+        | .nameEnum | .intEnum => readEnum env S p
+        | _ => .error .oof
+      | none => .error .oof)
+    cases hf : findSchema nm schemas with
+    | none => simp [isHand, hf] at hnh
+    | some S =>
+      simp only []
+      cases hk : S.kind with
+      | struct => exact readStruct_clean cfg _ he S (hS S (findSchema_mem_c01 hf)) p hp
+      | nameEnum => exact readEnum_clean he S p hp
+      | intEnum => exact readEnum_clean he S p hp
+      | streamEnum => simp [isHand, hf, hk] at hnh
+      | streamStruct => simp [isHand, hf, hk] at hnh
+  | modelApp nm t =>
+    show Clean (match findSchema nm schemas with
+      | some S => readStruct cfg inner env (S.inst t) p
+      | none => .error .oof)
+    cases hf : findSchema nm schemas with
+    | none => simp [isHand, hf] at hnh
+    | some S =>
+      simp only []
+      obtain ⟨g, hg, hgp⟩ := inst_fields S t
+      have hd : dfltOkFrom schemas (S.inst t).fields 0 = true := by
+        rw [hg, dfltOkFrom_map schemas g hgp]; exact hreg.dflt S (findSchema_mem_c01 hf)
+      exact readStruct_clean cfg _ he _ (schemaOk_of_inner schemas inner hdf env hall _ hd) p hp
+  | leaf nm =>
+    by_cases h1 : nm = "PagesNode"
+    · subst h1; exact readPagesNode_clean cfg schemas hreg _ he hS p hp
+    · by_cases h2 : nm = "PagesRc"
+      · subst h2; exact readPagesRc_clean cfg schemas hreg _ he hS "Pages" p hp
+      · by_cases h3 : nm = "PageRc"
+        · subst h3; exact readPagesRc_clean cfg schemas hreg _ he hS "Page" p hp
+        · have : (structSem cfg schemas inner).rd env (.leaf nm) p
+              = inner.rd env (.leaf nm) p := by
+            simp only [structSem]
+            split <;> simp_all
+          rw [this]; exact hall _ p hp
+  | leafApp nm a => simp [isHand] at hnh
+  | param nm => simp [isHand] at hnh
+  | option a => exact hall _ p hp
+  | vec a => exact hall _ p hp
+  | hashMap a => exact hall _ p hp
+  | box a => exact hall _ p hp
+  | maybeRef a => exact hall _ p hp
+  | rcRef a => exact hall _ p hp
+  | ref a => exact hall _ p hp
+  | lazy a => exact hall _ p hp
+  | pair a b => exact hall _ p hp
+
+
 /-- **`derived_reader_total`, registry level.** At every nesting budget `n`, for every shape — in particular every
     derived model of the registry — every plain primitive, strict and tolerant, the repaired and the pinned `Option`
     reader: the typed reader returns a value or an error of the implementation, given hand-written leaf readers
@@ -364,61 +435,6 @@ theorem semH_clean (cfg : Cfg) (schemas : List Schema) (hreg : RegistryOk schema
     split
     · exact hhand env he s p hp
     · rename_i hnh
-      have hall := fun s p hp => ih env he s p hp
-      have hS : ∀ S ∈ schemas, SchemaOk (semH cfg schemas hand n) env S :=
-        fun S hmem => schemaOk_of cfg schemas hand n env hall S (hreg.dflt S hmem)
-      cases s with
-      | model nm =>
-        show Clean (match findSchema nm schemas with
-          | some S => match S.kind with
-            | .struct => readStruct cfg (semH cfg schemas hand n) env S p
-            | .nameEnum | .intEnum => readEnum env S p
-            | _ => .error .oof
-          | none => .error .oof)
-        cases hf : findSchema nm schemas with
-        | none => simp [isHand, hf] at hnh
-        | some S =>
-          simp only []
-          cases hk : S.kind with
-          | struct => exact readStruct_clean cfg _ he S (hS S (findSchema_mem_c01 hf)) p hp
-          | nameEnum => exact readEnum_clean he S p hp
-          | intEnum => exact readEnum_clean he S p hp
-          | streamEnum => simp [isHand, hf, hk] at hnh
-          | streamStruct => simp [isHand, hf, hk] at hnh
-      | modelApp nm t =>
-        show Clean (match findSchema nm schemas with
-          | some S => readStruct cfg (semH cfg schemas hand n) env (S.inst t) p
-          | none => .error .oof)
-        cases hf : findSchema nm schemas with
-        | none => simp [isHand, hf] at hnh
-        | some S =>
-          simp only []
-          obtain ⟨g, hg, hgp⟩ := inst_fields S t
-          have hd : dfltOkFrom schemas (S.inst t).fields 0 = true := by
-            rw [hg, dfltOkFrom_map schemas g hgp]; exact hreg.dflt S (findSchema_mem_c01 hf)
-          exact readStruct_clean cfg _ he _ (schemaOk_of cfg schemas hand n env hall _ hd) p hp
-      | leaf nm =>
-        by_cases h1 : nm = "PagesNode"
-        · subst h1; exact readPagesNode_clean cfg schemas hreg _ he hS p hp
-        · by_cases h2 : nm = "PagesRc"
-          · subst h2; exact readPagesRc_clean cfg schemas hreg _ he hS "Pages" p hp
-          · by_cases h3 : nm = "PageRc"
-            · subst h3; exact readPagesRc_clean cfg schemas hreg _ he hS "Page" p hp
-            · have : (structSem cfg schemas (semH cfg schemas hand n)).rd env (.leaf nm) p
-                  = (semH cfg schemas hand n).rd env (.leaf nm) p := by
-                simp only [structSem]
-                split <;> simp_all
-              rw [this]; exact hall _ p hp
-      | leafApp nm a => simp [isHand] at hnh
-      | param nm => simp [isHand] at hnh
-      | option a => exact hall _ p hp
-      | vec a => exact hall _ p hp
-      | hashMap a => exact hall _ p hp
-      | box a => exact hall _ p hp
-      | maybeRef a => exact hall _ p hp
-      | rcRef a => exact hall _ p hp
-      | ref a => exact hall _ p hp
-      | lazy a => exact hall _ p hp
-      | pair a b => exact hall _ p hp
+      exact structSem_clean cfg schemas hreg _ (semH_dflt cfg schemas hand n) he (fun s p hp => ih env he s p hp) s hnh p hp
 
 end Derive
